@@ -54,14 +54,16 @@ inductive Clause
   | replayVisible        -- replayed although the peer's zone may not see the object
   | replayComplete       -- an intact, unconfirmed, visible, young enough event was not replayed
   | cleanupSafe          -- a file was deleted that a related endpoint still needs
-  | receiverFilter       -- the receiver accepted an old message / dropped a new one / moved its position wrongly
+  | receiverFilter       -- the receiver processed a message OLDER than its recorded position (or moved the position on it)
+  | receiverAcceptsNotOlder  -- a message with ts ≥ the recorded position (equal is not older) was dropped / not recorded
   | ackMonotone          -- a log-position acknowledgement moved the position backwards or not to max
   deriving DecidableEq, Repr
 
 def Clause.name : Clause → String
   | .persisted => "persisted" | .replayKnown => "replay_known" | .replayOrder => "replay_order"
   | .replayConfirmed => "replay_confirmed" | .replayVisible => "replay_visible" | .replayComplete => "replay_complete"
-  | .cleanupSafe => "cleanup_safe" | .receiverFilter => "receiver_filter" | .ackMonotone => "ack_monotone"
+  | .cleanupSafe => "cleanup_safe" | .receiverFilter => "receiver_filter"
+  | .receiverAcceptsNotOlder => "receiver_accepts_not_older" | .ackMonotone => "ack_monotone"
 
 /-- A logged event, where its frame ends in its file, and whether its bytes are (still) intact. -/
 structure GEntry where
@@ -208,8 +210,9 @@ def specStep (sp : SpecSt) (st : Step) : Option Clause × SpecSt :=
     (if lpos st.pos p == want then none else some .ackMonotone, sp')
   | .recv p ts accepted =>
     let old := rpos sp.pos p
-    let ok := if ts < old then (!accepted && rpos st.pos p == old) else (accepted && rpos st.pos p == ts)
-    (if ok then none else some .receiverFilter, sp')
+    let bad := if ts < old then (if !accepted && rpos st.pos p == old then none else some Clause.receiverFilter)
+               else (if accepted && rpos st.pos p == ts then none else some Clause.receiverAcceptsNotOlder)
+    (bad, sp')
   | .damage d => (none, applyDamage d sp')
   | .drop => (none, { sp' with dropped := true })
   | .restart => (none, { sp' with conn := [false, false, false] })
